@@ -280,7 +280,14 @@ func (fs *memFS) OpenFile(ctx context.Context, name string, flag int, perm os.Fi
 	}
 	var n *memFSNode
 	if dir == nil {
-		// We're opening the root.
+		// We're opening the root. It exists already and it is a directory, so
+		// O_CREATE cannot succeed.
+		if flag&os.O_CREATE != 0 {
+			if flag&os.O_EXCL != 0 {
+				return nil, os.ErrExist
+			}
+			return nil, os.ErrPermission
+		}
 		if runtime.GOOS == "zos" {
 			if flag&os.O_WRONLY != 0 {
 				return nil, os.ErrPermission
@@ -308,6 +315,10 @@ func (fs *memFS) OpenFile(ctx context.Context, name string, flag int, perm os.Fi
 		}
 		if n == nil {
 			return nil, os.ErrNotExist
+		}
+		if n.mode.IsDir() && flag&os.O_CREATE != 0 {
+			// O_CREATE asks for a regular file, but the name is a directory.
+			return nil, os.ErrPermission
 		}
 		if flag&(os.O_WRONLY|os.O_RDWR) != 0 && flag&os.O_TRUNC != 0 {
 			n.mu.Lock()
